@@ -97,6 +97,7 @@ def run(prop, tier, seed, args):
     obligations = discharged = 0
     solver_ms = 0.0
     per_ob = []
+    cross = {"cvc5-1.0.3": {}, "z3-4.8.12": {}}
     reached = {}
     functions = set()
     inlined = set()
@@ -132,6 +133,13 @@ def run(prop, tier, seed, args):
             obligations += 1
             solver_ms += ob["ms"]
             per_ob.append({"name": ob["ident"], "verdict": ob["verdict"], "backend": ob["backend"], "ms": ob["ms"]})
+            if ob.get("cross"):
+                per_ob[-1]["cross_check"] = ob["cross"]
+                for be, verdict in ob["cross"].items():
+                    cross[be][verdict] = cross[be].get(verdict, 0) + 1
+                    if verdict == "sat":
+                        # another solver finds the negated goal satisfiable where z3 5.1 said unsat: the proof is not trusted
+                        rep.errors.append(f"solver disagreement on {ob['ident']}: z3-5.1 unsat, {be} sat")
             if ob["verdict"] == "proved":
                 discharged += 1
                 if "smt2_goal" in ob and len(samples) < 4:
@@ -289,6 +297,9 @@ def run(prop, tier, seed, args):
         "assumed_contracts_on_dependencies": sorted(used_overrides - {q for q in used_overrides if q.startswith("vf.contracts.rt")}),
         "backends": sorted({o["backend"] for o in per_ob if o["backend"]}),
         "solver_ms": round(solver_ms, 1),
+        "independent_recheck": ({"rule": "thorough tier: a deterministic 1-in-25 sample of the proved obligations is re-decided from its SMT-LIB dump by two other solver builds; "
+                                          "`sat` from either is a checker error, `unknown`/`timeout` are only counted", "results": cross} if any(cross.values()) else
+                                "thorough tier only"),
         "symbolic_execution_and_solving_wall_s": round(proof_s, 2),
         "per_obligation": per_ob if len(per_ob) <= 400 else per_ob[:400] + [{"name": f"... {len(per_ob) - 400} more", "verdict": "see counts"}],
         "undecided": [{"obligation": i, "reason": r} for i, r in undecided],
